@@ -90,10 +90,15 @@ Literals ==
 \* branches / jumps to an ABSOLUTE address held in a constant (the distance grows when earlier items shrink)
 Abs ==
   << Const("K1", 260), Const("K2", 2052), Const("K3", 1048578), Const("K4", 39), I4, IC,
-     Lil(8, "offk", "K4", 39), Lil(9, "offk", "K2", 2052), Imml("addi", "offk", 8, 0, "K4", 39), Align(8), Li(9, 0, 5), Li(9, 4660, 22136), Pj("call", "L1"), Lab("L1"),
+     Lil(8, "offk", "K4", 39), Lil(9, "offk", "K2", 2052), Imml("addi", "offk", 8, 0, "K4", 39), Align(8), Br("bne", 9, 0, "L1"), Li(9, 0, 5), Li(9, 4660, 22136), Pj("call", "L1"), Lab("L1"),
      Pjk("tail", "K3", 1048578), Pjk("call", "K3", 1048578), Pjk("call", "K1", 260),
      Brk("beq", 8, 0, "K1", 260), Brk("bne", 9, 0, "K1", 260), Brk("blt", 5, 6, "K1", 260), Jalk(0, "K2", 2052), Jalk(1, "K2", 2052),
      Align(4), Data(2) >>
+\* a transfer to a constant (never compressed, never shrunk) in front of label branches / jumps that sit just beyond the reach
+\* of their compressed forms: a pass that loses track of the position behind the former mis-judges the latter
+AbsEdge ==
+  << Const("K1", 260), Pjk("call", "K1", 260), Brk("beq", 8, 0, "K1", 260), Jalk(0, "K1", 260), Lab("L1"), IC,
+     Br("bne", 9, 0, "L1"), Jal(0, "L1"), Pj("j", "L1") >> \o GapItems
 \* odd alignments and odd-sized data between a branch and its label
 OddAlign ==
   << Lab("L1"), IC, I4, Br("beq", 8, 0, "L1"), Br("blt", 5, 6, "L1"), Jal(1, "L1"), Jal(5, "L1"), Pj("j", "L1"),
@@ -134,7 +139,7 @@ PBranch ==
      Pbr("bgt", 5, 6, "L1"), Pbr("bleu", 8, 9, "L1"), Pj("j", "L1"), Pj("jal", "L1"),
      Align(4), Align(4096), Data(1), Data(2) >> \o GapItems
 
-Alpha == CASE Class = "pbranch" -> PBranch [] Class = "datamix" -> DataMix [] Class = "abs" -> Abs [] Class = "oddalign" -> OddAlign [] Class = "control" -> Control [] Class = "far" -> Far [] Class = "values" -> Values
+Alpha == CASE Class = "absedge" -> AbsEdge [] Class = "pbranch" -> PBranch [] Class = "datamix" -> DataMix [] Class = "abs" -> Abs [] Class = "oddalign" -> OddAlign [] Class = "control" -> Control [] Class = "far" -> Far [] Class = "values" -> Values
            [] Class = "aligns" -> Aligns [] OTHER -> Literals
 
 VARIABLE prog      \* sequence of alphabet indices
